@@ -76,3 +76,54 @@ def unit_condstack():
     t = '#include "verif_std.h"\nint verif_expect_throw; int verif_thrown;\n'
     t += r_nsdmi(rewrite(block('debugger/see.h', r'^class ConditionStack'), R_LIMITS), 'ConditionStack', 2)
     return t + '\n#include "h_condstack.h"\n'
+
+# ---- BIP65 / BIP112 lock-time tests of the transaction signature checker (C01: the oracle behind CLTV / CSV) --------------
+def unit_locktime():
+    t = '#include "verif_std.h"\nint verif_expect_throw; int verif_thrown;\n'
+    t += between('script/script.h', r'^// Threshold for nLockTime: below this value it is interpreted as block number,', r'^// Maximum nLockTime\.', include_end=False)
+    t += block('script/script.h', r'^class CScriptNum$')
+    consts = between('primitives/transaction.h', r'^    static const uint32_t SEQUENCE_FINAL = ', r'^    static const int SEQUENCE_LOCKTIME_GRANULARITY', include_end=False)
+    t += 'class CTxIn { public:\n' + consts + '    uint32_t nSequence;\n};\n'
+    t += '#include "locktime_env.h"\n'
+    f = between('script/interpreter.cpp', r'^bool GenericTransactionSignatureChecker<T>::CheckLockTime\(const CScriptNum& nLockTime\) const', r'^// explicit instantiation', include_end=False)
+    # R-TEMPLATE: member functions of the class template are re-emitted as members of a concrete stand-in class with the same fields
+    f = rewrite(f, [(r'bool GenericTransactionSignatureChecker<T>::CheckLockTime\(', 'bool verif_lockchecker::CheckLockTime(', 1),
+                    (r'template <class T>\nbool GenericTransactionSignatureChecker<T>::CheckSequence\(', 'bool verif_lockchecker::CheckSequence(', 1)])
+    t += f
+    t = rewrite(t, R_TYPES + R_LIMITS)
+    t = r_throw(t, THROW_TABLE)
+    return t + '\n#include "h_locktime.h"\n'
+
+# ---- CScript::HasValidOps as a loop contract (C01 L0): scripts of every length ---------------------------------------------
+def unit_hvo_loop():
+    t = '#include "verif_std.h"\n#include "decode_env.h"\n'
+    t += between('script/script.h', r'^// Maximum number of bytes pushable to the stack', r'^// Maximum number of non-push operations per script', include_end=False)
+    t += block('script/script.h', r'^enum opcodetype')
+    t += between('script/script.h', r'^static const unsigned int MAX_OPCODE = ', r'^std::string GetOpName', include_end=False)
+    t += '#include "hvo_loop_env.h"\n'
+    f = block('script/script.cpp', r'^bool CScript::HasValidOps\(\) const', trailing=None, open_at_bol=True)
+    m = re.match(r'// ---- [^\n]*\nbool CScript::HasValidOps\(\) const\n\{\n    (CScript::const_iterator it = [^;\n]+;)\n    while \(([^\n]+)\) \{\n', f)
+    if not m:
+        raise SliceError("R-LOOPCUT: head of CScript::HasValidOps (iterator declaration, loop header) not recognised")
+    init, cond = m.group(1), m.group(2)
+    b0 = m.end() - 2; depth = 0; k = b0
+    while True:
+        if f[k] == '{': depth += 1
+        elif f[k] == '}':
+            depth -= 1
+            if depth == 0: break
+        k += 1
+    body = f[b0 + 1:k]
+    tail = re.sub(r'\s+', ' ', f[k + 1:]).strip()
+    if tail != 'return true; }':
+        raise SliceError(f"R-LOOPCUT: the statement after the loop is not `return true;` ({tail[:60]!r})")
+    if re.search(r'\b(break|continue|goto)\b', body):
+        raise SliceError("R-LOOPCUT: the loop body leaves the loop other than by return or falling through")
+    body = rewrite(body, [(r'return ([^;\n]+);', r'{ verif_ret = (\1); return 1; }', '+')])
+    t += '// ---- R-LOOPCUT of CScript::HasValidOps (script/script.cpp): initialisation, condition and body of its loop as member functions;\n'
+    t += '// `return X;` inside the body -> `{ verif_ret = (X); return 1; }`, falling through -> `return 0;`; every other token is the sliced text\n'
+    t += 'CScript::const_iterator CScript::verif_loop_init() const { ' + init + ' return it; }\n'
+    t += 'bool CScript::verif_loop_cond(const_iterator it) const { return ' + cond + '; }\n'
+    t += 'int CScript::verif_loop_body(const_iterator& it, bool& verif_ret) const {' + body + '    return 0;\n}\n'
+    t = rewrite(t, R_TYPES + R_LIMITS)
+    return t + '\n#include "h_hvo_loop.h"\n'
